@@ -1,165 +1,441 @@
-def lane(k,i,v="p"):
-    return f"{v}._0" if k==0 else f"{v}._0.a{i}"
-out=[]
-out.append('''import PP.Sem.Exact
+#!/usr/bin/env python3
+"""generator of PP/Props/C07Bound.lean (the eight per-degree blocks are identical up to the degree)"""
+import sys
+DEGS = [int(a) for a in sys.argv[2:]] if len(sys.argv) > 2 else list(range(8))
+out = sys.argv[1]
+
+def c(n, i, p='p'):
+    return f"{p}._0" if n == 0 else f"{p}._0.a{i}"
+def e(n, i, p='p'):          # exact coefficient c_i/(i+1)
+    return c(n, i, p) if i == 0 else f"{c(n, i, p)} / {i+1}"
+def pw(x, j):
+    return x if j == 1 else f"{x} ^ {j}"
+def S(n, x, p='p'):
+    return " + ".join(f"|{e(n,i,p)}| * {pw('|'+x+'|', i+1)}" for i in range(n+1))
+def P(n, x, p='p'):
+    return " + ".join(f"{e(n,i,p)} * {pw(x, i+1)}" for i in range(n+1))
+def lanes(q, m, lo=1):
+    return ", ".join(f"{q}._0.a{j}" for j in range(lo, m+1))
+def elist(n, p='p'):
+    return ", ".join(e(n,i,p) for i in range(n+1))
+def polysum(q, m, x):
+    return " + ".join([f"{q}._0.a0"] + [f"{q}._0.a{j} * {pw(x,j)}" for j in range(1, m+1)])
+def polyabs(q, m, x):
+    return " + ".join([f"|{q}._0.a0|"] + [f"|{q}._0.a{j}| * {pw('|'+x+'|',j)}" for j in range(1, m+1)])
+LIT = lambda j: f"(((({j} : ℤ)) : K) * (10 : K) ^ (0 : ℤ))"
+
+HEADER = r'''import PP.Sem.Count
+import PP.Props.C01Bound
+import PP.Props.C07
+import PP.Lemmas.CalculusFP
 import PP.Model.Poly.CalculusAttr
-import PP.Model.Piecewise.CalculusAttr
-import PP.Props.C01
-import PP.Lemmas.Calculus
 /-!
-# C07 — integration of polynomials (exact-arithmetic part)
+# C07 — integration of polynomials: the FLOATING-POINT part
 
-"For every polynomial of degree 0-7, indefinite() returns the polynomial of one higher degree with zero constant
-term and coefficients c_i/(i+1), and integral(knot) returns that polynomial shifted vertically so that its value
-at knot.x is knot.y (within rounding). Consequently F(b)-F(a) equals the exact integral of p over [a,b] for all
-a,b, and differentiating the result returns p coefficient-wise to within one unit in the last place."
+`PP/Props/C07.lean` proves C07 for the code read in exact arithmetic.  This file proves the rounding clauses
+("its value at knot.x is knot.y (within rounding)", "F(b)−F(a) equals the exact integral", "differentiating the
+result returns p coefficient-wise to within one unit in the last place") for the same GENERATED code
+(`inst_HasIntegral_Poly⟨n⟩.indefinite / .integral`, `inst_HasDerivative_Poly⟨n+1⟩.derivative`,
+`inst_Translate_Poly⟨n+1⟩.translate`, `inst_Evaluate_Poly⟨n+1⟩.evaluate`, n = 0..7) **run in rounded arithmetic**
+`Rounded M`, for every linearly ordered field `K` and every rounding model `M : RModel K`.
 
-Everything here is in the exact interpretation `exactFL K` (any linearly ordered field; the analytic statements
-over ℝ); the rounding clauses ("within rounding", "one unit in the last place") are handled elsewhere.
+## What is ASSUMED (and not proved)
+* the **standard model** of floating-point arithmetic (`RModel`): every operation returns `rnd (exact result)`,
+  `|rnd t − t| ≤ u·|t|` (i.e. **no underflow, no overflow**), `fma` is ONE rounding; for (2), (3): `u ≤ 2⁻⁵³`;
+* the **inputs are exact**: the coefficients `cᵢ` of `p`, the knot `(x, y)` and the arguments `a, b` are arbitrary
+  elements of `K`, taken as they are (in the Rust code they are `f64`s);
+* decimal literals are `rnd (m·10^e)` and are **NOT assumed representable**: `2.0 … 8.0` may be rounded (only the
+  `…_fixed` variants assume `rnd j = j`, `LitFixed`); `rnd` is **not assumed idempotent** (`x += v` on the
+  constant term `0.0` costs a rounding: the constant term is `rnd (0 + rnd (y − E))`).
 
-For each degree k = 0..7 (`p : PolyK K`, result `Poly(k+1) K`):
-* `polyK_indefinite`            — lanes of `indefinite p` are literally `⟨0, c0, c1/2, …, ck/(k+1)⟩`
-* `polyK_derivative_indefinite` — `derivative (indefinite p) = p`
-* `polyK_integral_knot`         — `evaluate (integral p knot) knot.x = knot.y`
-* `polyK_integral_lanes`        — `integral p knot` is `indefinite p` with lane a0 replaced by
-                                  `knot.y - evaluate (indefinite p) knot.x` (all other lanes equal)
-* `polyK_integral_eval`         — `evaluate (integral p knot) x = evaluate (indefinite p) x + (knot.y - evaluate (indefinite p) knot.x)`
-* `polyK_derivative_integral`   — `derivative (integral p knot) = p`
-* over ℝ: `polyK_integral_hasDerivAt`, `polyK_indefinite_hasDerivAt`, `polyK_integral_ftc`, `polyK_indefinite_ftc`
-and the generic `segment_integral_knot`, `segment_integral_end`.
+## Results, for each degree n = 0..7 (`p : Poly⟨n⟩ K`, result of degree n+1; theorem names `poly⟨n⟩_…`)
+Notation: `S(t) = Σᵢ |cᵢ/(i+1)|·|t|^{i+1}`, `P(t) = Σᵢ cᵢ/(i+1)·t^{i+1}`,
+`p.indefiniteRounded M`, `p.integralRounded M knot`, `p.derivIndefRounded M` = the coefficients computed by the
+rounded runs of `indefinite`, `integral(knot)`, `derivative ∘ indefinite`.
+1. `poly⟨n⟩_indefinite_coeff_rounding` : constant term `= 0` exactly, linear coefficient `= c₀` exactly, and for i ≥ 1
+   `|computed − cᵢ/(i+1)| ≤ 2u/(1−u)·|cᵢ/(i+1)|` — the honest constant when the divisor literal `i+1` is itself rounded
+   (two roundings; `2u/(1−u) ≤ 2.001·u`);
+   `poly⟨n⟩_indefinite_coeff_rounding_fixed` : `≤ u·|cᵢ/(i+1)|` if the literals `2 … n+1` are representable (`LitFixed`).
+2. `poly⟨n⟩_integral_at_knot_rounding` (`u ≤ 2⁻⁵³`): the ROUNDED evaluation of `F = integral p knot` at `knot.x`:
+   `|F̂(knot.x) − knot.y| ≤ (3n+6)·u·(|knot.y| + S(knot.x))`          (C_n = 3n+6 = 3κ+3, κ = n+1);
+   `poly⟨n⟩_integral_at_knot_exact_eval`: the computed coefficients evaluated EXACTLY at `knot.x`:
+   `|F(knot.x) − knot.y| ≤ (n+4)·u·(|knot.y| + S(knot.x))`;
+   `poly⟨n⟩_integral_lanes_rounded`: `F` has the coefficients of `indefinite p` and the constant term
+   `rnd (0 + rnd (knot.y − Ê))`, `Ê` = rounded value of `indefinite p` at `knot.x`.
+3. `poly⟨n⟩_integral_difference_rounding` (`u ≤ 2⁻⁵³`), all `a b`:
+   `|F̂(b) − F̂(a) − (P(b) − P(a))| ≤ (n+4)·u·(S(a) + S(b) + 2|k|)`,  `k` = the computed constant term of `F`;
+   over ℝ `poly⟨n⟩_integral_difference_rounding_real`: the same with `∫ t in a..b, p t` (via `C07.poly⟨n⟩_indefinite_ftc`).
+4. `poly⟨n⟩_derivative_indefinite_rounding` : `derivative (indefinite p)`, all in `Rounded M`: coefficient 0 is `c₀`
+   exactly and `|computed − cᵢ| ≤ (2u + u²)·|cᵢ|` for i ≥ 1 — *whether or not the literal `i+1` is representable*:
+   the generated derivative multiplies by the same rounded literal the integral divided by, which cancels.
+
+κ = n+1 is the rounding depth of the generated evaluation scheme of degree n+1, *measured* by running it at the
+counting semantics (`Nat.le_of_ble_eq_true rfl`): a scheme of larger depth makes (2), (3) fail to re-check, one of
+smaller or equal depth re-checks unchanged.  Nothing else about the schemes is used (no code is restated: every
+generated definition is reached by `rfl`).
+
+Non-vacuity: section `examples` (models `RModel.m53`: every operation errs by the full relative `2⁻⁵³`;
+`RModel.intFix`: integers exact, everything else inflated — there the bounds `u·|c/3|` of (1, fixed literals) and
+`(2u+u²)|c|` of (4) are attained; `intShrink`: literals not representable — there `2u/(1−u)·|c/3|` of (1) is attained;
+in `M53` the defect of (2) is `≈ 3u ≠ 0`).
 -/
 set_option linter.unusedSectionVars false
-namespace PP.Props.C07
-open PP.Props.C01 PP.Lemmas.Calculus
+set_option linter.unusedVariables false
 
-section field
+/-! ## the rounded runs (GENERATED block: identical up to the degree) -/
+section runs
+variable {K : Type} [Field K] [LinearOrder K] [IsStrictOrderedRing K] [Transc K] (M : RModel K)
+'''
+
+def runs(n):
+    m = n+1
+    return f'''/-- coefficients computed by `indefinite` run in `Rounded M` on the exact coefficients of `p` -/
+@[reducible] noncomputable def Poly{n}.indefiniteRounded (p : Poly{n} K) : Poly{m} K :=
+  (HasIntegral.indefinite (p.mapF Rounded.mk : Poly{n} (Rounded M)) : Poly{m} (Rounded M)).mapF Rounded.val
+/-- coefficients computed by `integral(knot)` run in `Rounded M` -/
+@[reducible] noncomputable def Poly{n}.integralRounded (p : Poly{n} K) (knot : Knot K) : Poly{m} K :=
+  (HasIntegral.integral (p.mapF Rounded.mk : Poly{n} (Rounded M)) (knot.mapF Rounded.mk) : Poly{m} (Rounded M)).mapF
+    Rounded.val
+/-- coefficients computed by `derivative (indefinite p)`, all in `Rounded M` -/
+@[reducible] noncomputable def Poly{n}.derivIndefRounded (p : Poly{n} K) : Poly{n} K :=
+  (HasDerivative.derivative (HasIntegral.indefinite (p.mapF Rounded.mk : Poly{n} (Rounded M)) : Poly{m} (Rounded M))
+    : Poly{n} (Rounded M)).mapF Rounded.val
+'''
+
+MID = r'''end runs
+
+namespace PP.Props.C07Bound
+open PP.Lemmas.Rounding PP.Lemmas.CalculusFP PP.Props.C01
 variable {K : Type} [Field K] [LinearOrder K] [IsStrictOrderedRing K] [Transc K]
+
+section
 attribute [local instance] exactFL
-''')
-for k in range(0,8):
-    n=k+1
-    lanes=["0"]+[ (lane(k,i) if i==0 else f"{lane(k,i)} / {i+1}") for i in range(k+1)]
-    lanes_s=", ".join(lanes)
-    shifted=", ".join(["knot.y - Evaluate.evaluate (HasIntegral.indefinite p) knot.x"]+lanes[1:])
-    pat = "⟨c0⟩" if k==0 else "⟨⟨"+", ".join(f"c{i}" for i in range(k+1))+"⟩⟩"
-    if k==0:
-        deriv_proof="  exact_simp"
+
+/-! ## the evaluation schemes of degree 1..8 in list form (depth κ = degree, measured) -/
+'''
+
+def listbound(m):
+    return f'''theorem poly{m}_list_bound (M : RModel K) (r : Poly{m} K) (t : K) :
+    |r.evalRounded M t - (r._0.a0 + t * polySum [{lanes('r',m)}] t)|
+      ≤ ((1 + M.u) ^ {m} - 1) * (|r._0.a0| + |t| * polySum (List.map abs [{lanes('r',m)}]) |t|) := by
+  have h := (r.ctRun M t).bound_le rfl {m} (Nat.le_of_ble_eq_true rfl)
+  rw [poly{m}_ct_e_sum, poly{m}_ct_A_sum] at h
+  have e1 : r._0.a0 + t * polySum [{lanes('r',m)}] t = {polysum('r',m,'t')} := by
+    simp only [polySum]; ring
+  have e2 : |r._0.a0| + |t| * polySum (List.map abs [{lanes('r',m)}]) |t| = {polyabs('r',m,'t')} := by
+    simp only [polySum, List.map_cons, List.map_nil]; ring
+  rw [e1, e2]; exact h
+
+'''
+
+def block(n):
+    m = n+1
+    q = f"(p.indefiniteRounded M)"
+    F = f"(p.integralRounded M knot)"
+    D = f"(p.derivIndefRounded M)"
+    eta = "2 * M.u / (1 - M.u)"
+    s = f"/-! ## degree {n} -/\n\n"
+    # (1)
+    conj = [f"{q}._0.a0 = 0", f"{q}._0.a1 = {c(n,0)}"] + \
+        [f"|{q}._0.a{i+1} - {e(n,i)}| ≤ {eta} * |{e(n,i)}|" for i in range(1, n+1)]
+    prf = ["lit_zero M 0", "rfl"] + \
+        [f"div_lit_close M ({c(n,i)}) (l := {LIT(i+1)}) (q := {i+1}) (by norm_num) (by norm_num)" for i in range(1,n+1)]
+    s += f'''/-- **(1)** the coefficients computed by `indefinite`: constant term exactly 0, `c₀` copied, `cᵢ/(i+1)` within
+`2u/(1−u)` (rounded divisor literal) -/
+theorem poly{n}_indefinite_coeff_rounding (M : RModel K) (p : Poly{n} K) :
+    {(chr(10)+"      ∧ ").join(conj)} :=
+  ⟨{(","+chr(10)+"   ").join(prf)}⟩
+
+'''
+    conjf = [f"{q}._0.a0 = 0", f"{q}._0.a1 = {c(n,0)}"] + \
+        [f"|{q}._0.a{i+1} - {e(n,i)}| ≤ M.u * |{e(n,i)}|" for i in range(1, n+1)]
+    prff = ["lit_zero M 0", "rfl"] + \
+        [f"div_lit_fixed M ({c(n,i)}) (l := {LIT(i+1)}) (q := {i+1}) (by norm_num)\n     (hlit.get {i+1} (by norm_num) (by norm_num) (by norm_num))" for i in range(1,n+1)]
+    s += f'''/-- (1, representable literals) `cᵢ/(i+1)` within `u` when the literals `2 … n+1` (here: up to {n+1}) are fixed by `rnd` -/
+theorem poly{n}_indefinite_coeff_rounding_fixed (M : RModel K) (hlit : LitFixed M {n+1}) (p : Poly{n} K) :
+    {(chr(10)+"      ∧ ").join(conjf)} :=
+  ⟨{(","+chr(10)+"   ").join(prff)}⟩
+
+'''
+    # relation list
+    obt = ", ".join(f"h{j}" for j in range(0, m+1))
+    cons = f"(Rel.of_eq (eta_nonneg M.hu M.hu1) h1)"
+    rel = "List.Forall₂.nil"
+    for j in range(m, 1, -1):
+        rel = f"(List.Forall₂.cons h{j} {rel})"
+    rel = f"List.Forall₂.cons {cons} {rel}"
+    s += f'''theorem poly{n}_rel (M : RModel K) (p : Poly{n} K) :
+    List.Forall₂ (Rel ({eta})) [{lanes(q,m)}] [{elist(n)}] := by
+  obtain ⟨{obt}⟩ := poly{n}_indefinite_coeff_rounding M p
+  exact {rel}
+
+theorem poly{n}_S_eq (p : Poly{n} K) (t : K) :
+    |t| * polySum (List.map abs [{elist(n)}]) |t| = {S(n,'t')} := by
+  simp only [polySum, List.map_cons, List.map_nil]; ring
+
+theorem poly{n}_P_eq (p : Poly{n} K) (t : K) :
+    t * polySum [{elist(n)}] t = {P(n,'t')} := by
+  simp only [polySum]; ring
+
+'''
+    # lanes of integral
+    s += f'''/-- (2, structure) `integral p knot` computed in `Rounded M`: the coefficients of `indefinite p`, with the constant
+term `rnd (0 + rnd (knot.y − Ê))` where `Ê` is the rounded value of `indefinite p` at `knot.x` -/
+theorem poly{n}_integral_lanes_rounded (M : RModel K) (p : Poly{n} K) (knot : Knot K) :
+    p.integralRounded M knot =
+      ⟨⟨M.rnd ({q}._0.a0 + M.rnd (knot.y - {q}.evalRounded M knot.x)), {lanes(q,m)}⟩⟩ := rfl
+
+'''
+    # (2)
+    s += f'''/-- **(2)** "its value at knot.x is knot.y (within rounding)": the rounded evaluation of the rounded `integral p knot`
+at `knot.x`; `C_{n} = 3·{n}+6` -/
+theorem poly{n}_integral_at_knot_rounding (M : RModel K) (hu : M.u ≤ (2 : K) ^ (-53 : ℤ)) (p : Poly{n} K) (knot : Knot K) :
+    |{F}.evalRounded M knot.x - knot.y|
+      ≤ (3 * {n} + 6) * M.u * (|knot.y| + ({S(n,'knot.x')})) := by
+  have key := knot_defect M hu {m} (by norm_num) (poly{n}_rel M p) knot.x knot.y ({q}._0.a0)
+    ({q}.evalRounded M knot.x) ({F}._0.a0) ({F}.evalRounded M knot.x) (lit_zero M 0)
+    (poly{m}_list_bound M {q} knot.x) rfl (poly{m}_list_bound M {F} knot.x)
+  rw [poly{n}_S_eq] at key
+  refine key.trans (le_of_eq ?_)
+  push_cast; ring
+
+/-- (2, exact evaluation) the computed coefficients of `integral p knot`, evaluated EXACTLY at `knot.x` -/
+theorem poly{n}_integral_at_knot_exact_eval (M : RModel K) (hu : M.u ≤ (2 : K) ^ (-53 : ℤ)) (p : Poly{n} K) (knot : Knot K) :
+    |Evaluate.evaluate {F} knot.x - knot.y|
+      ≤ ({n} + 4) * M.u * (|knot.y| + ({S(n,'knot.x')})) := by
+  have key := knot_defect_exact M hu {m} (by norm_num) (poly{n}_rel M p) knot.x knot.y ({q}._0.a0)
+    ({q}.evalRounded M knot.x) ({F}._0.a0) (lit_zero M 0) (poly{m}_list_bound M {q} knot.x) rfl
+  have e : Evaluate.evaluate {F} knot.x
+      = {F}._0.a0 + knot.x * polySum [{lanes(q,m)}] knot.x := by
+    rw [poly{m}_eval, poly{n}_integral_lanes_rounded]
+    simp only [polySum]; ring
+  rw [e]
+  rw [poly{n}_S_eq] at key
+  refine key.trans (le_of_eq ?_)
+  push_cast; ring
+
+'''
+    # (3)
+    s += f'''/-- **(3)** `F̂(b) − F̂(a)` against the exact integral `P(b) − P(a)` of `p` over `[a, b]`, all `a b` -/
+theorem poly{n}_integral_difference_rounding (M : RModel K) (hu : M.u ≤ (2 : K) ^ (-53 : ℤ)) (p : Poly{n} K)
+    (knot : Knot K) (a b : K) :
+    |{F}.evalRounded M b - {F}.evalRounded M a
+        - (({P(n,'b')}) - ({P(n,'a')}))|
+      ≤ ({n} + 4) * M.u * (({S(n,'a')}) + ({S(n,'b')})
+          + 2 * |{F}._0.a0|) := by
+  have key := difference_defect M hu {m} (by norm_num) (poly{n}_rel M p) a b ({F}._0.a0)
+    ({F}.evalRounded M a) ({F}.evalRounded M b)
+    (poly{m}_list_bound M {F} a) (poly{m}_list_bound M {F} b)
+  rw [poly{n}_S_eq, poly{n}_S_eq, poly{n}_P_eq, poly{n}_P_eq] at key
+  refine key.trans (le_of_eq ?_)
+  push_cast; ring
+
+'''
+    # (4)
+    if n == 0:
+        s += f'''/-- **(4)** `derivative (indefinite p)` in `Rounded M` is `p` exactly (degree 0: no arithmetic) -/
+theorem poly0_derivative_indefinite_rounding (M : RModel K) (p : Poly0 K) :
+    (p.derivIndefRounded M)._0 = p._0 := rfl
+
+'''
     else:
-        deriv_proof=f"  rcases p with {pat}\n  exact_simp\n  congr 2\n  all_goals field_simp"
-    out.append(f'''/-! ## degree {k} -/
+        conj4 = [f"{D}._0.a0 = {c(n,0)}"] + \
+            [f"|{D}._0.a{i} - {c(n,i)}| ≤ (2 * M.u + M.u ^ 2) * |{c(n,i)}|" for i in range(1, n+1)]
+        prf4 = ["rfl"] + [f"mul_div_lit_close M ({c(n,i)}) (l := {LIT(i+1)}) (q := {i+1}) (by norm_num) (by norm_num)" for i in range(1,n+1)]
+        s += f'''/-- **(4)** `derivative (indefinite p)`, all in `Rounded M`, returns `p` coefficient-wise within `(2u + u²)|cᵢ|`
+(the rounded literal `i+1` cancels: no representability assumption) -/
+theorem poly{n}_derivative_indefinite_rounding (M : RModel K) (p : Poly{n} K) :
+    {(chr(10)+"      ∧ ").join(conj4)} :=
+  ⟨{(","+chr(10)+"   ").join(prf4)}⟩
 
-theorem poly{k}_indefinite (p : Poly{k} K) :
-    HasIntegral.indefinite p = (⟨⟨{lanes_s}⟩⟩ : Poly{n} K) := by
-  exact_simp
+'''
+    return s
 
-theorem poly{k}_derivative_indefinite (p : Poly{k} K) :
-    HasDerivative.derivative (HasIntegral.indefinite p) = p := by
-{deriv_proof}
+def realblock(n):
+    m = n+1
+    F = f"(p.integralRounded M knot)"
+    return f'''/-- (3, over ℝ) against the integral itself -/
+theorem poly{n}_integral_difference_rounding_real (M : RModel ℝ) (hu : M.u ≤ (2 : ℝ) ^ (-53 : ℤ)) (p : Poly{n} ℝ)
+    (knot : Knot ℝ) (a b : ℝ) :
+    |{F}.evalRounded M b - {F}.evalRounded M a - ∫ t in a..b, Evaluate.evaluate p t|
+      ≤ ({n} + 4) * M.u * (({S(n,'a')}) + ({S(n,'b')})
+          + 2 * |{F}._0.a0|) := by
+  have e : (∫ t in a..b, Evaluate.evaluate p t) = ({P(n,'b')}) - ({P(n,'a')}) := by
+    rw [← PP.Props.C07.poly{n}_indefinite_ftc p a b, PP.Props.C07.poly{n}_indefinite, poly{m}_eval, poly{m}_eval]
+    ring
+  rw [e]; exact poly{n}_integral_difference_rounding M hu p knot a b
 
-theorem poly{k}_integral_knot (p : Poly{k} K) (knot : Knot K) :
-    Evaluate.evaluate (HasIntegral.integral p knot) knot.x = knot.y := by
-  exact_simp
-  ring
+'''
 
-/-- `integral p knot` and `indefinite p` differ only in lane a0 -/
-theorem poly{k}_integral_lanes (p : Poly{k} K) (knot : Knot K) :
-    HasIntegral.integral p knot =
-      (⟨⟨{shifted}⟩⟩ : Poly{n} K) := by
-  exact_simp
-  congr 2
-  ring
 
-theorem poly{k}_integral_eval (p : Poly{k} K) (knot : Knot K) (x : K) :
-    Evaluate.evaluate (HasIntegral.integral p knot) x =
-      Evaluate.evaluate (HasIntegral.indefinite p) x
-        + (knot.y - Evaluate.evaluate (HasIntegral.indefinite p) knot.x) := by
-  exact_simp
-  ring
-
-theorem poly{k}_derivative_integral (p : Poly{k} K) (knot : Knot K) :
-    HasDerivative.derivative (HasIntegral.integral p knot) = p := by
-  have h := poly{k}_derivative_indefinite p
-  rw [poly{k}_indefinite] at h
-  rw [poly{k}_integral_lanes]
-  exact h
-''')
-out.append('''/-! ## the generic Segment lemma -/
-
-/-- For any piece type whose `Translate` adds a constant to the value, the integral of a segment through a knot
-takes the knot's value at the knot's abscissa. -/
-theorem segment_integral_knot {T I : Type} [HasIntegral T (Knot K) I] [Evaluate I K] [Translate I K]
-    (htr : ∀ (i : I) (v x : K),
-      Evaluate.evaluate (Translate.translate i v) x = Evaluate.evaluate i x + v)
-    (s : Segment K T) (knot : Knot K) :
-    Evaluate.evaluate (HasIntegral.integral s knot) knot.x = knot.y := by
-  show Evaluate.evaluate (Translate.translate (HasIntegral.indefinite s.poly)
-      (knot.y - Evaluate.evaluate (HasIntegral.indefinite s.poly) knot.x)) knot.x = knot.y
-  rw [htr]; ring
-
-/-- integration keeps the segment's end -/
-theorem segment_integral_end {T I : Type} [HasIntegral T (Knot K) I] [Evaluate I K] [Translate I K]
-    (s : Segment K T) (knot : Knot K) :
-    (HasIntegral.integral s knot).«end» = s.«end» := rfl
-
-theorem segment_indefinite_end {T I : Type} [HasIntegral T (Knot K) I] [Evaluate I K] [Translate I K]
-    (s : Segment K T) :
-    (HasIntegral.indefinite s).«end» = s.«end» := rfl
-
-/-- the hypothesis of `segment_integral_knot` holds for the polynomial pieces (shown for Poly3; `exact_simp; ring`
-proves every degree) … -/
-theorem poly3_translate_eval (q : Poly3 K) (v x : K) :
-    Evaluate.evaluate (Translate.translate q v) x = Evaluate.evaluate q x + v := by
-  exact_simp; ring
-
-/-- … so a cubic segment integrates through its knot -/
-example (s : Segment K (Poly2 K)) (knot : Knot K) :
-    Evaluate.evaluate (HasIntegral.integral s knot) knot.x = knot.y :=
-  segment_integral_knot poly3_translate_eval s knot
-
-end field
-
-/-! ## analytic statements over ℝ -/
-section real
-variable [Transc ℝ]
-attribute [local instance] exactFL
-''')
-for k in range(0,8):
-    n=k+1
-    out.append(f'''/-! ### degree {k} -/
-
-theorem poly{k}_integral_hasDerivAt (p : Poly{k} ℝ) (knot : Knot ℝ) (x : ℝ) :
-    HasDerivAt (fun x => Evaluate.evaluate (HasIntegral.integral p knot) x) (Evaluate.evaluate p x) x := by
-  have h := poly{n}_hasDerivAt (HasIntegral.integral p knot) x
-  rwa [poly{k}_derivative_integral] at h
-
-theorem poly{k}_indefinite_hasDerivAt (p : Poly{k} ℝ) (x : ℝ) :
-    HasDerivAt (fun x => Evaluate.evaluate (HasIntegral.indefinite p) x) (Evaluate.evaluate p x) x := by
-  have h := poly{n}_hasDerivAt (HasIntegral.indefinite p) x
-  rwa [poly{k}_derivative_indefinite] at h
-
-/-- F(b) − F(a) is the exact integral of p over [a,b], for all a, b (in either order) -/
-theorem poly{k}_integral_ftc (p : Poly{k} ℝ) (knot : Knot ℝ) (a b : ℝ) :
-    Evaluate.evaluate (HasIntegral.integral p knot) b - Evaluate.evaluate (HasIntegral.integral p knot) a
-      = ∫ x in a..b, Evaluate.evaluate p x :=
-  ftc_of_hasDerivAt _ _ a b (poly{k}_integral_hasDerivAt p knot) (poly{k}_continuous p)
-
-theorem poly{k}_indefinite_ftc (p : Poly{k} ℝ) (a b : ℝ) :
-    Evaluate.evaluate (HasIntegral.indefinite p) b - Evaluate.evaluate (HasIntegral.indefinite p) a
-      = ∫ x in a..b, Evaluate.evaluate p x :=
-  ftc_of_hasDerivAt _ _ a b (poly{k}_indefinite_hasDerivAt p) (poly{k}_continuous p)
-''')
-out.append('''end real
-
-/-! ## sanity: concrete instances -/
-section example_
+EXAMPLES = r"""/-! ## non-vacuity: the hypotheses are satisfiable in models that really round -/
+section examples
 noncomputable local instance : Transc ℚ := ⟨fun x => x, fun x => x⟩
-attribute [local instance] exactFL
-/-- ∫ (1 − 2x + 3x²) = x − x² + x³, through (2, 10): constant 4 -/
-example : HasIntegral.integral (⟨⟨1, -2, 3⟩⟩ : Poly2 ℚ) ⟨2, 10⟩ = (⟨⟨4, 1, -1, 1⟩⟩ : Poly3 ℚ) := by
-  rw [poly2_integral_lanes, poly2_indefinite, poly3_eval]; norm_num
-example : Evaluate.evaluate (HasIntegral.integral (⟨⟨1, -2, 3⟩⟩ : Poly2 ℚ) ⟨2, 10⟩) 2 = 10 :=
-  poly2_integral_knot _ _
-end example_
+noncomputable local instance instTranscReal : Transc ℝ := ⟨Real.log, Real.exp⟩
 
-end PP.Props.C07''')
-open('/tmp/agent-logint/lean/PP/Props/C07.lean','w').write("\n".join(out)+"\n")
+/-- `u = 2⁻⁵³` exactly and *every* operation errs by the full relative `u` -/
+noncomputable abbrev M53 : RModel ℚ := RModel.m53
+/-- the same over ℝ -/
+noncomputable def M53R : RModel ℝ := RModel.inflate (2 ^ (-53 : ℤ)) (by positivity) (by norm_num)
+
+example : M53.u ≤ (2 : ℚ) ^ (-53 : ℤ) := le_refl _
+example : M53R.u ≤ (2 : ℝ) ^ (-53 : ℤ) := le_refl _
+
+/-- integers are fixed by `RModel.intFix` (which is not the identity: `intFix.rnd (1/2) ≠ 1/2`) -/
+theorem intFix_litFixed : LitFixed RModel.intFix 8 := fun j _ _ => by
+  simpa using RModel.intFix_int (j : ℤ)
+
+theorem intFix_third : RModel.intFix.rnd (1 / 3) = 1 / 3 * (1 + 2 ^ (-53 : ℤ)) := by
+  simp [RModel.intFix]
+
+/-- (1): `∫ (1 − 2x + 3x²)`, the cubic coefficient -/
+example : |((⟨⟨1, -2, 3⟩⟩ : Poly2 ℚ).indefiniteRounded M53)._0.a3 - 3 / 3|
+    ≤ 2 * M53.u / (1 - M53.u) * |(3 : ℚ) / 3| :=
+  (poly2_indefinite_coeff_rounding M53 ⟨⟨1, -2, 3⟩⟩).2.2.2
+
+/-- (1, representable literals): the hypothesis `LitFixed` holds in `intFix` … -/
+example : |((⟨⟨1, 1, 1⟩⟩ : Poly2 ℚ).indefiniteRounded RModel.intFix)._0.a3 - 1 / 3|
+    ≤ RModel.intFix.u * |(1 : ℚ) / 3| :=
+  (poly2_indefinite_coeff_rounding_fixed RModel.intFix (fun j h2 h3 => intFix_litFixed j h2 (by omega))
+    ⟨⟨1, 1, 1⟩⟩).2.2.2
+
+/-- … and there the bound `u·|c/3|` of (1) is ATTAINED: the computed coefficient of `x³` in `∫ (1 + x + x²)` is
+`(1/3)(1 + 2⁻⁵³)` -/
+example : |((⟨⟨1, 1, 1⟩⟩ : Poly2 ℚ).indefiniteRounded RModel.intFix)._0.a3 - 1 / 3|
+    = RModel.intFix.u * |(1 : ℚ) / 3| := by
+  show |RModel.intFix.rnd (1 / RModel.intFix.rnd (((3 : ℤ) : ℚ) * (10 : ℚ) ^ (0 : ℤ))) - 1 / 3|
+    = (2 : ℚ) ^ (-53 : ℤ) * |(1 : ℚ) / 3|
+  have h3 : RModel.intFix.rnd (((3 : ℤ) : ℚ) * (10 : ℚ) ^ (0 : ℤ)) = 3 := by
+    simpa using RModel.intFix_int 3
+  rw [h3, intFix_third]
+  norm_num [abs_of_pos]
+
+theorem den_ne_one_of_mem_Ioo {t : ℚ} (h0 : 0 < t) (h1 : t < 1) : t.den ≠ 1 := by
+  intro h
+  have e := Rat.coe_int_num_of_den_eq_one h
+  rw [← e] at h0 h1
+  have a : 0 < t.num := by exact_mod_cast h0
+  have b : t.num < 1 := by exact_mod_cast h1
+  omega
+
+/-- a model in which the literals are NOT representable: integers are rounded DOWN by the full `u`,
+everything else UP -/
+def intShrink : RModel ℚ where
+  rnd := fun t => if t.den = 1 then t * (1 - 2 ^ (-53 : ℤ)) else t * (1 + 2 ^ (-53 : ℤ))
+  u := 2 ^ (-53 : ℤ)
+  hu := by positivity
+  hu1 := by norm_num
+  h := fun t => by
+    split
+    · have : t * (1 - 2 ^ (-53 : ℤ)) - t = -(2 ^ (-53 : ℤ) * t) := by ring
+      rw [this, abs_neg, abs_mul, abs_of_nonneg (by positivity)]
+    · have : t * (1 + 2 ^ (-53 : ℤ)) - t = 2 ^ (-53 : ℤ) * t := by ring
+      rw [this, abs_mul, abs_of_nonneg (by positivity)]
+  rnd_neg := fun t => by
+    simp only [Rat.neg_den]
+    split <;> ring
+
+/-- (1), rounded literals: the constant `2u/(1−u)` of the general statement is ATTAINED in `intShrink`
+(`rnd 3 = 3(1−u)`, then `rnd (1/(3(1−u))) = (1+u)/(3(1−u))`) -/
+example : |((⟨⟨1, 1, 1⟩⟩ : Poly2 ℚ).indefiniteRounded intShrink)._0.a3 - 1 / 3|
+    = 2 * intShrink.u / (1 - intShrink.u) * |(1 : ℚ) / 3| := by
+  show |intShrink.rnd (1 / intShrink.rnd (((3 : ℤ) : ℚ) * (10 : ℚ) ^ (0 : ℤ))) - 1 / 3|
+    = 2 * (2 : ℚ) ^ (-53 : ℤ) / (1 - (2 : ℚ) ^ (-53 : ℤ)) * |(1 : ℚ) / 3|
+  have h3 : intShrink.rnd (((3 : ℤ) : ℚ) * (10 : ℚ) ^ (0 : ℤ)) = 3 * (1 - 2 ^ (-53 : ℤ)) := by
+    simp [intShrink]
+  rw [h3]
+  have h4 : intShrink.rnd (1 / (3 * (1 - 2 ^ (-53 : ℤ))))
+      = 1 / (3 * (1 - 2 ^ (-53 : ℤ))) * (1 + 2 ^ (-53 : ℤ)) := by
+    have : (1 / (3 * (1 - 2 ^ (-53 : ℤ))) : ℚ).den ≠ 1 :=
+      den_ne_one_of_mem_Ioo (by norm_num) (by norm_num)
+    show (if (1 / (3 * (1 - 2 ^ (-53 : ℤ))) : ℚ).den = 1 then _ else _) = _
+    rw [if_neg this]
+  rw [h4]
+  norm_num [abs_of_pos]
+
+theorem M53_rnd (t : ℚ) : M53.rnd t = t * (1 + 2 ^ (-53 : ℤ)) := rfl
+
+/-- (2): the defect is real ("within rounding" cannot be dropped): `∫ 1` through the knot `(1, 0)` in `M53` takes the
+value `−((1+u)³ − 1)(1+u) ≈ −3u ≠ 0` at `x = 1` (the bound of (2) is `6u·(|0| + |1|·|1|)`) -/
+example : ((⟨1⟩ : Poly0 ℚ).integralRounded M53 ⟨1, 0⟩).evalRounded M53 1
+    = -((1 + 2 ^ (-53 : ℤ)) ^ 3 - 1) * (1 + 2 ^ (-53 : ℤ)) := by
+  show M53.rnd (1 * 1 + M53.rnd (M53.rnd (((0 : ℤ) : ℚ) * (10 : ℚ) ^ (0 : ℤ))
+      + M53.rnd (0 - M53.rnd (1 * 1 + M53.rnd (((0 : ℤ) : ℚ) * (10 : ℚ) ^ (0 : ℤ)))))) = _
+  simp only [M53_rnd]
+  ring
+
+/-- (2): `∫ (1 − 2x + 3x²)` through the knot `(2, 10)` -/
+example : |((⟨⟨1, -2, 3⟩⟩ : Poly2 ℚ).integralRounded M53 ⟨2, 10⟩).evalRounded M53 2 - 10|
+    ≤ (3 * 2 + 6) * M53.u * (|10| + (|1| * |2| + |-2 / 2| * |2| ^ 2 + |3 / 3| * |2| ^ 3)) :=
+  poly2_integral_at_knot_rounding M53 (le_refl _) ⟨⟨1, -2, 3⟩⟩ ⟨2, 10⟩
+
+/-- (2), degree 7 -/
+example : |((⟨⟨1, -2, 3, -4, 5, -6, 7, -8⟩⟩ : Poly7 ℚ).integralRounded M53 ⟨2, 10⟩).evalRounded M53 2 - 10|
+    ≤ (3 * 7 + 6) * M53.u * (|10| + (|1| * |2| + |-2 / 2| * |2| ^ 2 + |3 / 3| * |2| ^ 3 + |-4 / 4| * |2| ^ 4
+        + |5 / 5| * |2| ^ 5 + |-6 / 6| * |2| ^ 6 + |7 / 7| * |2| ^ 7 + |-8 / 8| * |2| ^ 8)) :=
+  poly7_integral_at_knot_rounding M53 (le_refl _) ⟨⟨1, -2, 3, -4, 5, -6, 7, -8⟩⟩ ⟨2, 10⟩
+
+section
+attribute [local instance] exactFL
+/-- (2, exact evaluation of the computed coefficients) -/
+example : |Evaluate.evaluate ((⟨⟨1, -2, 3⟩⟩ : Poly2 ℚ).integralRounded M53 ⟨2, 10⟩) 2 - 10|
+    ≤ (2 + 4) * M53.u * (|10| + (|1| * |2| + |-2 / 2| * |2| ^ 2 + |3 / 3| * |2| ^ 3)) :=
+  poly2_integral_at_knot_exact_eval M53 (le_refl _) ⟨⟨1, -2, 3⟩⟩ ⟨2, 10⟩
+end
+
+/-- (3): `∫₁³ (1 − 2x + 3x²)` -/
+example : |((⟨⟨1, -2, 3⟩⟩ : Poly2 ℚ).integralRounded M53 ⟨2, 10⟩).evalRounded M53 3
+      - ((⟨⟨1, -2, 3⟩⟩ : Poly2 ℚ).integralRounded M53 ⟨2, 10⟩).evalRounded M53 1
+      - ((1 * 3 + -2 / 2 * 3 ^ 2 + 3 / 3 * 3 ^ 3) - (1 * 1 + -2 / 2 * 1 ^ 2 + 3 / 3 * 1 ^ 3))|
+    ≤ (2 + 4) * M53.u * ((|1| * |1| + |-2 / 2| * |1| ^ 2 + |3 / 3| * |1| ^ 3)
+        + (|1| * |3| + |-2 / 2| * |3| ^ 2 + |3 / 3| * |3| ^ 3)
+        + 2 * |((⟨⟨1, -2, 3⟩⟩ : Poly2 ℚ).integralRounded M53 ⟨2, 10⟩)._0.a0|) :=
+  poly2_integral_difference_rounding M53 (le_refl _) ⟨⟨1, -2, 3⟩⟩ ⟨2, 10⟩ 1 3
+
+section
+attribute [local instance] exactFL
+/-- (3, over ℝ, against the integral) -/
+example : |((⟨⟨1, -2, 3⟩⟩ : Poly2 ℝ).integralRounded M53R ⟨2, 10⟩).evalRounded M53R 3
+      - ((⟨⟨1, -2, 3⟩⟩ : Poly2 ℝ).integralRounded M53R ⟨2, 10⟩).evalRounded M53R 1
+      - ∫ t in (1 : ℝ)..3, Evaluate.evaluate (⟨⟨1, -2, 3⟩⟩ : Poly2 ℝ) t|
+    ≤ (2 + 4) * M53R.u * ((|1| * |1| + |-2 / 2| * |1| ^ 2 + |3 / 3| * |1| ^ 3)
+        + (|1| * |3| + |-2 / 2| * |3| ^ 2 + |3 / 3| * |3| ^ 3)
+        + 2 * |((⟨⟨1, -2, 3⟩⟩ : Poly2 ℝ).integralRounded M53R ⟨2, 10⟩)._0.a0|) :=
+  poly2_integral_difference_rounding_real M53R (le_refl _) ⟨⟨1, -2, 3⟩⟩ ⟨2, 10⟩ 1 3
+end
+
+/-- (4): every operation inflated … -/
+example : |((⟨⟨1, -2, 3⟩⟩ : Poly2 ℚ).derivIndefRounded M53)._0.a2 - 3| ≤ (2 * M53.u + M53.u ^ 2) * |3| :=
+  (poly2_derivative_indefinite_rounding M53 ⟨⟨1, -2, 3⟩⟩).2.2
+
+/-- … and in `intFix` the bound `(2u + u²)|c|` of (4) is ATTAINED: `3·rnd(1/3) = 1 + u` is not an integer and is
+inflated once more -/
+example : |((⟨⟨1, 1, 1⟩⟩ : Poly2 ℚ).derivIndefRounded RModel.intFix)._0.a2 - 1|
+    = (2 * RModel.intFix.u + RModel.intFix.u ^ 2) * |1| := by
+  show |RModel.intFix.rnd (RModel.intFix.rnd (((3 : ℤ) : ℚ) * (10 : ℚ) ^ (0 : ℤ))
+      * RModel.intFix.rnd (1 / RModel.intFix.rnd (((3 : ℤ) : ℚ) * (10 : ℚ) ^ (0 : ℤ)))) - 1|
+    = (2 * (2 : ℚ) ^ (-53 : ℤ) + ((2 : ℚ) ^ (-53 : ℤ)) ^ 2) * |1|
+  have h3 : RModel.intFix.rnd (((3 : ℤ) : ℚ) * (10 : ℚ) ^ (0 : ℤ)) = 3 := by
+    simpa using RModel.intFix_int 3
+  rw [h3, intFix_third]
+  have h4 : RModel.intFix.rnd (3 * (1 / 3 * (1 + 2 ^ (-53 : ℤ))))
+      = 3 * (1 / 3 * (1 + 2 ^ (-53 : ℤ))) * (1 + 2 ^ (-53 : ℤ)) := by
+    simp [RModel.intFix]
+  rw [h4]
+  norm_num [abs_of_pos]
+
+end examples
+
+"""
+
+with open(out, 'w') as f:
+    f.write(HEADER)
+    for n in DEGS: f.write(runs(n))
+    f.write(MID)
+    for m in sorted(set(n+1 for n in DEGS)): f.write(listbound(m))
+    for n in DEGS: f.write(block(n))
+    f.write("end\n\n/-! ## (3) over ℝ: against `∫ t in a..b, p t` -/\nsection real\nvariable [Transc ℝ]\nattribute [local instance] exactFL\n\n")
+    for n in DEGS: f.write(realblock(n))
+    f.write("end real\n\n")
+    if len(DEGS) == 8: f.write(EXAMPLES)
+    f.write("end PP.Props.C07Bound\n")
